@@ -1,0 +1,15 @@
+//go:build verif
+// +build verif
+
+package sidecar
+
+import (
+	"net/url"
+	"time"
+)
+
+// VerifSetTimeNow replaces the package clock (timeNow is unexported). Only with the "verif" build tag.
+func VerifSetTimeNow(f func() time.Time) { timeNow = f }
+
+// VerifTranslateURL exposes translateURL (unexported). Only with the "verif" build tag.
+func VerifTranslateURL(u url.URL) (job string, hash string, realURL url.URL) { return translateURL(u) }
